@@ -905,7 +905,7 @@ fn gen_loop_case(rng: &mut Rng, i: usize) -> Synth {
     let gp = sp.n_pts as i32 + 4;
     let cvt = sp.n_cvt as i32;
     match i % 8 {
-        0 => {
+        0 if i % 40 == 0 => {
             // SLOOP far beyond 16 bits, then a point loop that keeps popping zeros in non-pedantic mode: bounded only
             // by the clamp to 0xFFFF
             let mut p = vec![];
@@ -1866,6 +1866,234 @@ fn ift_battery(seed: u64, rep: &mut Report) -> String {
 // child process main
 // ------------------------------------------------------------------------------------------------
 
+// ------------------------------------------------------------------------------------------------
+// brotli decoder wrapper: max_uncompressed_length is honoured (oracle on the real code)
+// ------------------------------------------------------------------------------------------------
+
+struct BitWriter {
+    out: Vec<u8>,
+    nbits: usize,
+}
+
+impl BitWriter {
+    fn new() -> Self {
+        BitWriter { out: vec![], nbits: 0 }
+    }
+    fn put(&mut self, value: u32, bits: usize) {
+        for k in 0..bits {
+            if self.nbits % 8 == 0 {
+                self.out.push(0);
+            }
+            if (value >> k) & 1 != 0 {
+                let last = self.out.len() - 1;
+                self.out[last] |= 1 << (self.nbits % 8);
+            }
+            self.nbits += 1;
+        }
+    }
+    fn align(&mut self) {
+        while self.nbits % 8 != 0 {
+            self.put(0, 1);
+        }
+    }
+}
+
+/// a valid brotli stream that stores `chunks` as uncompressed meta-blocks (RFC 7932 section 9.2), window 16 bits
+fn brotli_stored(chunks: &[Vec<u8>]) -> Vec<u8> {
+    let mut w = BitWriter::new();
+    w.put(0, 1); // WBITS = 16
+    for c in chunks {
+        if c.is_empty() {
+            continue;
+        }
+        let mlen1 = (c.len() - 1) as u32;
+        let nibbles = if mlen1 < (1 << 16) {
+            4
+        } else if mlen1 < (1 << 20) {
+            5
+        } else {
+            6
+        };
+        w.put(0, 1); // ISLAST = 0
+        w.put(nibbles as u32 - 4, 2); // MNIBBLES
+        w.put(mlen1, nibbles * 4);
+        w.put(1, 1); // ISUNCOMPRESSED
+        w.align();
+        w.out.extend_from_slice(c);
+        w.nbits = w.out.len() * 8;
+    }
+    w.put(1, 1); // ISLAST
+    w.put(1, 1); // ISLASTEMPTY
+    w.align();
+    w.out
+}
+
+fn brotli_battery(seed: u64, rep: &mut Report) -> String {
+    use shared_brotli_patch_decoder::{BuiltInBrotliDecoder, SharedBrotliDecoder};
+    // streams from the crate's own tests (compressed, with and without a shared dictionary)
+    const TARGET_LEN: usize = 29;
+    const SHARED_DICT_PATCH: [u8; 23] = [
+        0xa1, 0xe0, 0x00, 0xc0, 0x2f, 0x3a, 0x38, 0xf4, 0x01, 0xd1, 0xaf, 0x54, 0x84, 0x14, 0x71, 0x2a, 0x80, 0x04, 0xa2, 0x1c, 0xd3, 0xdd,
+        0x07,
+    ];
+    const NO_DICT_PATCH: [u8; 26] = [
+        0xa1, 0xe0, 0x00, 0xc0, 0x2f, 0x96, 0x1c, 0xf3, 0x03, 0xb1, 0xcf, 0x45, 0x95, 0x22, 0x4a, 0xc5, 0x03, 0x21, 0xb2, 0x9a, 0x58, 0xd4,
+        0x7c, 0xf6, 0x1e, 0x00,
+    ];
+    let mut rng = Rng::new(seed);
+    let dec = BuiltInBrotliDecoder;
+    let mut violations: Vec<String> = vec![];
+    for _ in 0..40 {
+        // (stream, dictionary, expected output length if the stream is pristine)
+        let (mut stream, dict, expect): (Vec<u8>, Option<Vec<u8>>, Option<Vec<u8>>) = match rng.below(8) {
+            0 => (SHARED_DICT_PATCH.to_vec(), Some(b"abcdef\n".to_vec()), None),
+            1 => (NO_DICT_PATCH.to_vec(), None, None),
+            _ => {
+                let nchunks = rng.below(4) as usize;
+                let chunks: Vec<Vec<u8>> = (0..nchunks)
+                    .map(|_| {
+                        let n = *rng.pick(&[0usize, 1, 2, 100, 4095, 4096, 4097, 65535, 65536, 65537, 200000]);
+                        let b = rng.next() as u8;
+                        vec![b; n]
+                    })
+                    .collect();
+                let all: Vec<u8> = chunks.iter().flatten().copied().collect();
+                let dict = if rng.chance(1, 4) { Some(rng.bytes(16)) } else { None };
+                (brotli_stored(&chunks), dict, Some(all))
+            }
+        };
+        let known_len = expect.as_ref().map(|e| e.len()).unwrap_or(TARGET_LEN);
+        let corrupted = rng.chance(1, 3);
+        if corrupted && !stream.is_empty() {
+            for _ in 0..1 + rng.below(3) {
+                let p = rng.below(stream.len() as u64) as usize;
+                match rng.below(3) {
+                    0 => stream[p] ^= 1 << rng.below(8),
+                    1 => stream.truncate(p),
+                    _ => stream.push(rng.next() as u8),
+                }
+                if stream.is_empty() {
+                    break;
+                }
+            }
+        }
+        let cap = match rng.below(7) {
+            0 => 0,
+            1 => known_len.saturating_sub(1),
+            2 => known_len,
+            3 => known_len + 1,
+            4 => rng.below(known_len as u64 + 2) as usize,
+            5 => u32::MAX as usize, // the largest value a patch header can carry
+            _ => 1 << 20,
+        };
+        let what = format!("stream={} dict={} cap={cap} corrupted={corrupted}", hex(&stream[..stream.len().min(40)]), dict.is_some());
+        let r = rep.guard(|| what.clone(), || dec.decode(&stream, dict.as_deref(), cap));
+        match r {
+            Some(Ok(v)) => {
+                if v.len() > cap {
+                    violations.push(format!("output {} > cap {cap}: {what}", v.len()));
+                }
+                if !corrupted {
+                    if let Some(e) = &expect {
+                        if &v != e {
+                            violations.push(format!("stored stream decoded to something else: {what}"));
+                        }
+                    }
+                }
+            }
+            Some(Err(_)) => {
+                if !corrupted && cap >= known_len && expect.is_some() {
+                    violations.push(format!("pristine stored stream of {known_len} bytes rejected with cap {cap}: {what}"));
+                }
+            }
+            None => {}
+        }
+        if !corrupted && cap < known_len {
+            if let Some(Ok(v)) = rep.guard(|| what.clone(), || dec.decode(&stream, dict.as_deref(), cap)) {
+                violations.push(format!("output {} accepted under cap {cap} < {known_len}: {what}", v.len()));
+            }
+        }
+    }
+    violations.join(" || ")
+}
+
+/// IFT client, table-keyed patch whose first entry announces `max_uncompressed_length = 0xFFFFFFFF` (the stream itself
+/// decodes to 29 bytes): select + apply with the built-in decoder.  Run by the parent in a child whose address space
+/// is limited, so that an allocation sized by the untrusted header field is observable as an abort.
+fn ift_bigcap_case(announce: u32) -> String {
+    use font_test_data::ift as t;
+    use incremental_font_transfer::patch_group::{PatchGroup, UriStatus};
+    use incremental_font_transfer::patchmap::SubsetDefinition;
+    use std::collections::HashMap;
+    let base_vec = std::fs::read("/repo/font-test-data/test_data/ttf/ift_base.ttf").unwrap_or_default();
+    let Ok(basef) = FontRef::new(&base_vec) else { return "no-base-font".into() };
+    let mut fb = write_fonts::FontBuilder::new();
+    fb.add_raw(Tag::new(b"IFT "), t::table_keyed_format2().as_slice().to_vec());
+    fb.add_raw(Tag::new(b"tab1"), b"abcdef\n".to_vec());
+    fb.add_raw(Tag::new(b"tab2"), b"foobar".to_vec());
+    fb.add_raw(Tag::new(b"tab3"), b"baz".to_vec());
+    for rec in basef.table_directory.table_records() {
+        let tag = rec.tag();
+        if tag != Tag::new(b"IFT ") && tag != Tag::new(b"IFTX") {
+            if let Some(d) = basef.table_data(tag) {
+                fb.add_raw(tag, d.as_bytes().to_vec());
+            }
+        }
+    }
+    let font_bytes = fb.build();
+    let Ok(font) = FontRef::new(&font_bytes) else { return "no-font".into() };
+    let mut patch = t::table_keyed_patch();
+    patch.write_at("decompressed_len[0]", announce);
+    let pb = patch.as_slice().to_vec();
+    let Ok(group) = PatchGroup::select_next_patches(font.clone(), &SubsetDefinition::all()) else { return "select-failed".into() };
+    let uris: Vec<String> = group.uris().map(|s| s.to_string()).collect();
+    let mut data: HashMap<String, UriStatus> = HashMap::new();
+    for u in &uris {
+        data.insert(u.clone(), UriStatus::Pending(pb.clone()));
+    }
+    match catch(|| group.apply_next_patches(&mut data)) {
+        Ok(Ok(b)) => format!("ok applied uris={} bytes={}", uris.len(), b.len()),
+        Ok(Err(e)) => format!("ok error uris={} {e:?}", uris.len()).replace('\n', " "),
+        Err(m) => format!("panic at=[{}] {}", last_loc(), m.replace('\n', " ")),
+    }
+}
+
+/// run one child request in a child process whose address space is limited to `vkb` KiB
+fn run_limited(request: &str, vkb: u64, cap: Duration) -> String {
+    let exe = std::env::current_exe().expect("current_exe");
+    let script = format!("ulimit -v {vkb}; exec \"{}\" --child", exe.display());
+    let Ok(mut child) = Command::new("sh").arg("-c").arg(script).stdin(Stdio::piped()).stdout(Stdio::piped()).stderr(Stdio::null()).spawn() else {
+        return "spawn-failed".into();
+    };
+    let mut stdin = child.stdin.take().unwrap();
+    let stdout = child.stdout.take().unwrap();
+    let (tx, rx) = channel();
+    std::thread::spawn(move || {
+        let mut r = BufReader::new(stdout);
+        let mut l = String::new();
+        let _ = tx.send(match r.read_line(&mut l) {
+            Ok(n) if n > 0 => Some(l.trim_end().to_string()),
+            _ => None,
+        });
+    });
+    let _ = stdin.write_all(format!("{request}\n").as_bytes()).and_then(|_| stdin.flush());
+    let resp = match rx.recv_timeout(cap) {
+        Ok(Some(l)) => l,
+        Ok(None) | Err(RecvTimeoutError::Disconnected) => {
+            drop(stdin);
+            return exit_text(&mut child);
+        }
+        Err(RecvTimeoutError::Timeout) => {
+            let _ = child.kill();
+            let _ = child.wait();
+            return "timeout".into();
+        }
+    };
+    drop(stdin);
+    let _ = child.wait();
+    resp
+}
+
 fn corpus_files() -> Vec<std::path::PathBuf> {
     let mut v = vec![];
     for sub in ["ttf", "ttc"] {
@@ -1944,6 +2172,16 @@ fn child_request(line: &str) -> String {
             let seed: u64 = t[3].parse().unwrap_or(0);
             let mut rep = Report::new();
             battery_cross(&a, &b, seed, &mut rep);
+            finish_report(rep, "")
+        }
+        "ift-bigcap" if t.len() == 2 => ift_bigcap_case(t[1].parse().unwrap_or(29)),
+        "brotli" if t.len() == 2 => {
+            let seed: u64 = t[1].parse().unwrap_or(0);
+            let mut rep = Report::new();
+            let v = brotli_battery(seed, &mut rep);
+            if !v.is_empty() {
+                return format!("cap-violated {v}");
+            }
             finish_report(rep, "")
         }
         "ift" if t.len() == 2 => {
@@ -2354,6 +2592,34 @@ fn run(cfg: &Config, s: &mut Session) {
         record(s, "ift-client-total", j, r);
     }
     s.notes.push(format!("ift batteries: {total_ops} guarded API operations"));
+
+    // ---- 4a. a patch header announcing max_uncompressed_length = 0xFFFFFFFF must not cost 4 GiB: the IFT client in a
+    //          child whose address space is limited to 1 GiB (an allocation sized by the header aborts there)
+    for announce in [29u32, 1 << 20, u32::MAX] {
+        let req = format!("ift-bigcap {announce}");
+        let r = run_limited(&req, 1024 * 1024, cap);
+        s.count(&format!("ift-bigcap announce={announce}: {}", r.split_whitespace().take(2).collect::<Vec<_>>().join(" ")));
+        s.oracle(
+            "ift-apply-with-huge-announced-length-returns-under-1GiB-address-space",
+            r.starts_with("ok "),
+            || format!("ulimit -v 1048576; {req}"),
+            || r.clone(),
+        );
+    }
+
+    // ---- 4b. the brotli decoder wrapper honours max_uncompressed_length
+    let n_br = if thorough { 600 } else { 60 };
+    let br_jobs: Vec<String> = (0..n_br).map(|_| format!("brotli {}", rng.next() % 1_000_000_000)).collect();
+    let res = run_jobs(&br_jobs, cap, nworkers);
+    for (j, r) in br_jobs.iter().zip(res.iter()) {
+        s.count(&format!("brotli:{}", r.split_whitespace().next().unwrap_or("?")));
+        if r.starts_with("cap-violated") {
+            s.oracle("brotli-decoder-output-within-max-uncompressed-length", false, || j.clone(), || r.clone());
+        } else {
+            s.oracle("brotli-decoder-output-within-max-uncompressed-length", true, String::new, String::new);
+            record(s, "brotli-decoder-total", j, r);
+        }
+    }
 }
 
 fn main() {
